@@ -278,15 +278,28 @@ fn kind_of(case: &J) -> KineticEnergyKind {
 
 /// replacing the transformation between two draws (as the adaptation does during warmup)
 trait Retransform {
-    fn retransform(&mut self, math: &mut WM, stds: &[f64], mean: &[f64]);
+    fn retransform(&mut self, math: &mut WM, stds: &[f64], mean: &[f64], rt: &J);
 }
 impl Retransform for TransformedHamiltonian<WM, DiagMassMatrix<WM>> {
-    fn retransform(&mut self, math: &mut WM, stds: &[f64], mean: &[f64]) {
+    fn retransform(&mut self, math: &mut WM, stds: &[f64], mean: &[f64], _rt: &J) {
         self.transformation_mut().verif_set_transform(math, stds, mean);
     }
 }
 impl Retransform for TransformedHamiltonian<WM, LowRankMassMatrix<WM>> {
-    fn retransform(&mut self, _math: &mut WM, _stds: &[f64], _mean: &[f64]) {}
+    /// a full low-rank update (LowRankMassMatrix::update); spectral data may be non-finite, in
+    /// which case the update has to be rejected as a whole
+    fn retransform(&mut self, math: &mut WM, stds: &[f64], mean: &[f64], rt: &J) {
+        let Some(lr) = rt.get("lowrank") else { return };
+        let vals: Vec<f64> = lr["vals"].as_array().unwrap().iter().map(|x| x.as_f64().unwrap_or(f64::NAN)).collect();
+        let vecs: Vec<Vec<f64>> = lr["vecs"]
+            .as_array()
+            .unwrap()
+            .iter()
+            .map(|c| c.as_array().unwrap().iter().map(|x| x.as_f64().unwrap_or(f64::NAN)).collect())
+            .collect();
+        let mu = jvf(lr, "mu");
+        self.transformation_mut().verif_update(math, stds, mean, &vals, &vecs, &mu);
+    }
 }
 
 fn run_with<H: Hamiltonian<WM, Point = TransformedPoint<WM>> + Retransform>(
@@ -315,6 +328,30 @@ fn run_with<H: Hamiltonian<WM, Point = TransformedPoint<WM>> + Retransform>(
     let mut rng = ScriptRng::new(words, ju(case, "seed", 1));
     let opts = options(case);
     let mut draws = vec![];
+    if let Some(sc) = case.get("search") {
+        // the initial step-size search (stepsize::Strategy::init) on this Hamiltonian, with the
+        // scripted momentum; every density evaluation it makes is in the log
+        use nuts_rs::{StepSizeAdaptMethod, StepSizeSettings};
+        let mut st = StepSizeSettings::default();
+        st.initial_step = jf(sc, "initial_step", 0.1);
+        st.target_accept = jf(sc, "target", 0.8);
+        st.adapt_options.method = if js(sc, "method", "dual") == "adam" { StepSizeAdaptMethod::Adam } else { StepSizeAdaptMethod::DualAverage };
+        let mut strat = nuts_rs::verif::StepSizeStrategy::new(st);
+        math.gauss_script.push_back(mom.clone());
+        let mut opts = options(case);
+        let e0 = log.lock().unwrap().count;
+        let res = catch(|| strat.init(&mut math, &mut opts, &mut ham, &init, &mut rng));
+        let evals: Vec<J> = log.lock().unwrap().evals[e0 as usize..]
+            .iter()
+            .map(|e| json!({"x": vbits(&e.position), "logp": bits(e.logp), "g": vbits(&e.gradient),
+                            "fault": e.fault.map(|f| f.name())}))
+            .collect();
+        let ad = strat.verif_adapt_state().map(|(k, v, c)| json!({"kind": k, "v": v.iter().map(|x| bits(*x)).collect::<Vec<_>>(), "count": c}));
+        return json!({"id": case["id"], "init_state": "ok", "draws": [], "search": {
+            "result": match res { Ok(Ok(())) => "ok".to_string(), Ok(Err(e)) => format!("err: {e:?}"), Err(p) => format!("panic: {p}") },
+            "step_after": bits(ham.step_size()), "adapt": ad, "evals": evals,
+            "start": point_json(&mut math, &state)}});
+    }
     if let Some(steps) = case.get("single_steps").and_then(|x| x.as_array()) {
         // direct calls of Hamiltonian::leapfrog with a chosen direction and step-size factor,
         // each continuing from the state the previous call returned
@@ -372,7 +409,7 @@ fn run_with<H: Hamiltonian<WM, Point = TransformedPoint<WM>> + Retransform>(
             if let Some(rt) = case.get("retransform") {
                 let (s2, m2) = (jvf(rt, "stds"), jvf(rt, "mean"));
                 if s2.len() == dim && m2.len() == dim {
-                    ham.retransform(&mut math, &s2, &m2);
+                    ham.retransform(&mut math, &s2, &m2, rt);
                 }
             }
         }
